@@ -40,6 +40,7 @@ func Run(p *load.Program, tier string) *oblig.Set {
 	readerRule(p, s)
 	reportRule(p, s)
 	segmentsRule(p, s)
+	recoverRule(p, s)
 	return s
 }
 
